@@ -1,3 +1,4 @@
+use crate::chess::colour::Colour;
 use crate::chess::mv::Mv;
 use crate::chess::piece::Piece;
 use crate::chess::position::Position;
@@ -6,34 +7,23 @@ use std::str::SplitAsciiWhitespace;
 
 pub fn moves(stream: &mut SplitAsciiWhitespace, pos: &mut Position, history: &mut Vec<u64>) {
     for movestr in stream.by_ref() {
-        let mv = if let Some(gg) = pos.legal_moves().iter().find(|x| x.to_uci(pos) == movestr) {
+        let legal = pos.legal_moves();
+        let mv = if let Some(gg) = legal.iter().find(|x| x.to_uci(pos) == movestr) {
             Some(*gg)
-        } else if movestr == "e1g1" {
-            Some(Mv {
-                from: Square::from_index(SquareIdx::E1),
-                to: Square::from_coords(pos.castle_files[0], 0),
-                promo: Piece::None,
-            })
-        } else if movestr == "e1c1" {
-            Some(Mv {
-                from: Square::from_index(SquareIdx::E1),
-                to: Square::from_coords(pos.castle_files[1], 0),
-                promo: Piece::None,
-            })
-        } else if movestr == "e8g8" {
-            Some(Mv {
-                from: Square::from_index(SquareIdx::E8),
-                to: Square::from_coords(pos.castle_files[2], 0),
-                promo: Piece::None,
-            })
-        } else if movestr == "e8c8" {
-            Some(Mv {
-                from: Square::from_index(SquareIdx::E8),
-                to: Square::from_coords(pos.castle_files[3], 0),
-                promo: Piece::None,
-            })
         } else {
-            None
+            // Conventional castling strings (also understood in Chess960 mode): the mover's king
+            // on its e-file home square castling with the rook of that wing, if that is legal
+            let wing = match (movestr, pos.turn) {
+                ("e1g1", Colour::White) | ("e8g8", Colour::Black) => Some(0),
+                ("e1c1", Colour::White) | ("e8c8", Colour::Black) => Some(1),
+                _ => None,
+            };
+            wing.map(|idx| Mv {
+                from: Square::from_index(SquareIdx::E1),
+                to: Square::from_coords(pos.castle_files[idx], 0),
+                promo: Piece::None,
+            })
+            .filter(|mv| pos.get_us().is_set(mv.to) && legal.contains(mv))
         };
 
         if let Some(found) = mv {
